@@ -17,6 +17,10 @@ a = run(['/venv/bin/python', demo, '/repo'], env=env, timeout=600).returncode
 b = run(['/venv/bin/python', demo, wt], env=env, timeout=600)
 print(f'demo: original rc={a}, changed rc={b.returncode}: {b.stdout.strip()[-300:]}')
 env2 = {k: v for k, v in os.environ.items() if k not in ('OMP_NUM_THREADS', 'MKL_NUM_THREADS')}
+# the demonstration is not part of the change: keep it out of pytest's doctest-module collection
+os.makedirs('/tmp/wt/_aside', exist_ok=True)
+shutil.move(demo, f'/tmp/wt/_aside/{prop}_demo.py')
+demo = f'/tmp/wt/_aside/{prop}_demo.py'
 t = run(['/venv/bin/python', '-m', 'pytest', '-q', '-p', 'no:cacheprovider', '--timeout=900', '--continue-on-collection-errors'], cwd=wt, env=env2, timeout=1800)
 tail = t.stdout.strip().split('\n')[-1]
 print('suite:', tail)
@@ -47,4 +51,6 @@ json.dump(meta, open(os.path.join(dst, 'meta.json'), 'w'), indent=1)
 print('VALID' if ok else 'INVALID (kept for the record only if valid)', 'detected_by', meta['detected_by'])
 if not ok:
     shutil.rmtree(dst)
-subprocess.run(['git', '-C', '/repo', 'worktree', 'remove', '--force', wt])
+    print('worktree kept for inspection:', wt)
+else:
+    subprocess.run(['git', '-C', '/repo', 'worktree', 'remove', '--force', wt])
